@@ -118,9 +118,10 @@ package mp4
 // type by "pred boxOK@Type" (true where none is given); for a box of statically unknown type it is abstract.
 //@ abspred boxOK
 
-//@ schema boxEncodeSW method ^EncodeSW$ except ^(Fragment|MediaSegment|File|InitSegment|\w+Descriptor)\.
+//@ schema boxEncodeSW method ^EncodeSW$ except ^(Fragment|MediaSegment|File|InitSegment|\w*Descriptor|\w*SampleGroupEntry)\.
 //@   requires swOKi(p1) && boxOK(p0)
 //@   ensures swOKi(p1)
+//@   ensures p1.(*bits.FixedSliceWriter).accError == nil ==> old(p1.(*bits.FixedSliceWriter).accError) == nil
 //@   ensures[C02] result == nil ==> adv(p1, int(p0.Size()))
 //@   defines[C03] result == nil && p1.(*bits.FixedSliceWriter).accError == nil ==> ghost(p1).tr == trApp(old(ghost(p1).tr), chEnc(p0))
 //@   assigns p1.(*bits.FixedSliceWriter).off, p1.(*bits.FixedSliceWriter).accError, p1.(*bits.FixedSliceWriter).n, p1.(*bits.FixedSliceWriter).v, p1.(*bits.FixedSliceWriter).buf[:], ghost(p1).tr
